@@ -26,14 +26,11 @@ func TestMain(m *testing.M) {
 	pbt.Main(m, "C11")
 }
 
-// key of the known finding (DESIGN section 3, row 20): phase / phasent print their results in
-// the order in which the worker goroutines deliver them when --threads > 1
-const phaseKey = "phase-output-order"
-
-// key of the second finding (found by this check): `trim name -m` and `rename -e|--clean-names -m`
-// write their name map file by iterating over a Go map: the order of its lines changes from run
-// to run
-const nameMapKey = "name-map-file-order"
+// Two defects found with this check have been repaired in the repository ("fix:" commits f25e994 and
+// 21f2412, see FINDINGS.md): phase/phasent printed their records in worker-arrival order when
+// --threads > 1, and trim name/rename wrote the name map file in map iteration order. Both are now
+// under the plain byte-identity oracle; TestPhaseOrder and TestNameMapOrder keep the original
+// reproductions as regressions.
 
 // ---- one execution of the binary ---------------------------------------------------------------
 
@@ -181,28 +178,12 @@ func clip(s string, n int) string {
 }
 
 // canonical forgets the order of the output records: FASTA records (header and its sequence
-// lines) are sorted; any other text has its lines sorted. Used only for phase/phasent with
-// --threads > 1 while the known finding is listed.
+// lines) are sorted; any other text has its lines sorted. Used only to word the message of the two
+// regressions (same records in another order / different records); the oracle is byte identity.
 func canonical(s snap) snap {
 	c := snap{Exit: s.Exit, Stdout: canonText(s.Stdout), Files: map[string]string{}}
 	for n, t := range s.Files {
 		c.Files[n] = canonText(t)
-	}
-	return c
-}
-
-// canonicalFiles forgets the order of the lines of the named output files only
-func canonicalFiles(s snap, names []string) snap {
-	c := snap{Exit: s.Exit, Stdout: s.Stdout, Files: map[string]string{}, TarSeen: s.TarSeen}
-	for n, t := range s.Files {
-		c.Files[n] = t
-	}
-	for _, n := range names {
-		if t, ok := c.Files[n]; ok {
-			lines := strings.Split(t, "\n")
-			sort.Strings(lines)
-			c.Files[n] = strings.Join(lines, "\n")
-		}
 	}
 	return c
 }
@@ -392,10 +373,8 @@ type tmpl struct {
 	// Threads: the command hands --threads to a worker pool
 	Threads bool
 	// Map: its output is assembled from a Go map (order must be imposed by the code)
-	Map bool
-	// NameMap: output files written by cmd/name.go:writeNameMap (see nameMapKey)
-	NameMap []string
-	Args    func(x *ctx) []string
+	Map  bool
+	Args func(x *ctx) []string
 }
 
 var ntModels = []string{"jc", "k2p", "pdist", "rawdist", "f81", "tn93", "f84"}
@@ -573,7 +552,7 @@ var templates = []tmpl{
 	}},
 	{Name: "transpose", In: "any", Args: func(x *ctx) []string { return cat("transpose", "-i", x.in) }},
 	// ---- names and order
-	{Name: "rename", In: "any", Map: true, NameMap: []string{"outmap.txt"}, Args: func(x *ctx) []string {
+	{Name: "rename", In: "any", Map: true, Args: func(x *ctx) []string {
 		switch x.k(0, 3) {
 		case 0:
 			var m strings.Builder
@@ -596,7 +575,7 @@ var templates = []tmpl{
 		return cat("sort", "-i", x.file("rev.fa", cli.Fasta(rows)))
 	}},
 	{Name: "addid", In: "any", Args: func(x *ctx) []string { return cat("addid", "-i", x.in, "-n", "id_", x.opt(0, "-r")) }},
-	{Name: "trim name", In: "any", Map: true, NameMap: []string{"map.txt"}, Args: func(x *ctx) []string {
+	{Name: "trim name", In: "any", Map: true, Args: func(x *ctx) []string {
 		if x.k(0, 2) == 0 {
 			return cat("trim", "name", "-i", x.in, "-a", "-m", "map.txt")
 		}
@@ -786,7 +765,6 @@ func checkSweep(c sweepCase) (o pbt.Outcome, err error) {
 	if c.Seeded {
 		clean = append(clean, "--seed", fmt.Sprint(c.Seed))
 	}
-	isPhase := strings.HasPrefix(c.Cmd, "phase")
 	type run struct {
 		t int
 		s snap
@@ -811,30 +789,8 @@ func checkSweep(c sweepCase) (o pbt.Outcome, err error) {
 	cmdline := "goalign " + strings.Join(clean, " ")
 	ref := runs[0]
 	for _, r := range runs[1:] {
-		a, b := ref.s, r.s
-		relaxed := false
-		if isPhase && (ref.t > 1 || r.t > 1) && pbt.Known(phaseKey) {
-			// known finding: the order of the records is not compared, their multiset is
-			a, b = canonical(a), canonical(b)
-			relaxed = true
-			o.Exclude(phaseKey)
-		}
-		if len(tp.NameMap) > 0 && pbt.Known(nameMapKey) {
-			// known finding: the lines of the name map file are compared as a multiset
-			a, b = canonicalFiles(a, tp.NameMap), canonicalFiles(b, tp.NameMap)
-			for _, f := range tp.NameMap {
-				if _, ok := a.Files[f]; ok {
-					relaxed = true
-					o.Exclude(nameMapKey)
-				}
-			}
-		}
-		if d := diffSnap(a, b); d != "" {
-			what := "byte-identical"
-			if relaxed {
-				what = "the same records"
-			}
-			return o, fmt.Errorf("%s -t %d and -t %d (same input, flags and seed) do not produce %s output: %s", cmdline, ref.t, r.t, what, d)
+		if d := diffSnap(ref.s, r.s); d != "" {
+			return o, fmt.Errorf("%s -t %d and -t %d (same input, flags and seed) do not produce byte-identical output: %s", cmdline, ref.t, r.t, d)
 		}
 	}
 	if ref.s.TarSeen {
